@@ -586,3 +586,127 @@ Proof.
   rewrite (condorcet_table_closed i (wf_alts_nodup i Hwf) (wf_orders_nodup i Hwf)).
   rewrite condorcet_rebuild. unfold beats. reflexivity.
 Qed.
+
+(* ------------------------------------------------------------------------------------------ *)
+(** * pairwise / copeland entry-level statements *)
+
+Theorem pairwise_correct i : wf_inst i -> is_ordinal (data_type i) = true ->
+  exists t, pairwise_scores i = Ok t /\
+    (forall a b, In a (alts i) -> In b (alts i) -> a <> b -> tget t a b = Some (pw (mult i) a b)) /\
+    (forall a b, tget t a b <> None -> In a (alts i) /\ In b (alts i) /\ a <> b).
+Proof.
+  intros Hwf Ht. unfold pairwise_scores. rewrite Ht. eexists. split; [reflexivity|].
+  rewrite (pairwise_table_closed i (wf_alts_nodup i Hwf) (wf_orders_nodup i Hwf)). split.
+  - intros a b. apply tget_rebuild_some.
+  - intros a b. apply tget_rebuild_dom.
+Qed.
+
+Theorem copeland_correct i : wf_inst i -> is_ordinal (data_type i) = true ->
+  exists t, copeland_scores i = Ok t /\
+    (forall a b, In a (alts i) -> In b (alts i) -> a <> b ->
+       tget t a b = Some (pw (mult i) a b - pw (mult i) b a)) /\
+    (forall a b, tget t a b <> None -> In a (alts i) /\ In b (alts i) /\ a <> b).
+Proof.
+  intros Hwf Ht. unfold copeland_scores. rewrite Ht. eexists. split; [reflexivity|].
+  rewrite (copeland_table_closed i (wf_alts_nodup i Hwf) (wf_orders_nodup i Hwf)). split.
+  - intros a b. apply tget_rebuild_some.
+  - intros a b. apply tget_rebuild_dom.
+Qed.
+
+(* ------------------------------------------------------------------------------------------ *)
+(** * order_to_pwg *)
+
+Lemma pwg_entries_rebuild f (g : N -> list N) l :
+  pwg_entries (rebuild f (map (fun a => (a, g a)) l))
+  = map (fun ab => (f (fst ab) (snd ab), fst ab, snd ab))
+        (flat_map (fun a => map (fun b => (a, b)) (g a)) l).
+Proof.
+  unfold pwg_entries, rebuild. induction l as [|x l IH]; simpl; [reflexivity|].
+  rewrite IH, map_app, !map_map. reflexivity.
+Qed.
+
+Lemma fold_sum {X} (h : X -> Z) l : forall s, fold_left (fun s x => s + h x) l s = s + zsum h l.
+Proof. induction l as [|x l IH]; intros s; simpl; [ring | rewrite IH; ring]. Qed.
+Lemma fold_count {X} (l : list X) : forall n, fold_left (fun n _ => (n + 1)%N) l n = (n + N.of_nat (length l))%N.
+Proof. induction l as [|x l IH]; intros n; [simpl; lia|]. cbn [fold_left length]. rewrite IH. lia. Qed.
+Lemma zsum_map {X Y} (f : Y -> Z) (g : X -> Y) l : zsum f (map g l) = zsum (fun x => f (g x)) l.
+Proof. induction l; simpl; [reflexivity | rewrite IHl; reflexivity]. Qed.
+
+Lemma others_notin al a : ~ In a al -> others al a = al.
+Proof.
+  unfold others. induction al as [|x al IH]; simpl; intros H; [reflexivity|].
+  destruct (N.eqb_spec x a); [subst; exfalso; apply H; left; reflexivity|].
+  simpl. f_equal. apply IH. intros Hin. apply H. right. exact Hin.
+Qed.
+Lemma length_others al a : NoDup al -> In a al -> S (length (others al a)) = length al.
+Proof.
+  induction 1 as [|x al Hn Hd IH]; intros Hin; [destruct Hin|].
+  unfold others in *. simpl. destruct (N.eqb_spec x a) as [E|E]; simpl.
+  - subst. f_equal. f_equal. apply (others_notin al a Hn).
+  - f_equal. apply IH. destruct Hin; [contradiction | assumption].
+Qed.
+
+Lemma length_ordered_pairs al : NoDup al ->
+  length (ordered_pairs al) = (length al * (length al - 1))%nat.
+Proof.
+  intros Hnd. unfold ordered_pairs.
+  assert (G : forall l, incl l al ->
+    length (flat_map (fun a => map (fun b => (a, b)) (others al a)) l) = (length l * (length al - 1))%nat).
+  { induction l as [|x l IH]; intros Hincl; [reflexivity|].
+    simpl. rewrite app_length, map_length, IH.
+    - pose proof (length_others al x Hnd (Hincl x (or_introl eq_refl))). lia.
+    - intros y Hy. apply Hincl. right. exact Hy. }
+  apply G. apply incl_refl.
+Qed.
+
+Lemma in_ordered_pairs al a b : In (a, b) (ordered_pairs al) <-> In a al /\ In b al /\ a <> b.
+Proof.
+  unfold ordered_pairs. rewrite in_flat_map. split.
+  - intros [x [Hx Hin]]. apply in_map_iff in Hin. destruct Hin as [y [E Hy]]. inversion E; subst.
+    apply in_others in Hy. destruct Hy as [Hy Hne]. repeat split; try assumption. congruence.
+  - intros [Ha [Hb Hne]]. exists a. split; [exact Ha|]. apply in_map_iff. exists b. split; [reflexivity|].
+    apply in_others. split; [exact Hb | congruence].
+Qed.
+
+Lemma NoDup_map_pair (a : N) ks : NoDup ks -> NoDup (map (fun b : N => (a, b)) ks).
+Proof.
+  induction 1 as [|x ks Hn Hd IH]; simpl; constructor; [|exact IH].
+  intros Hin. apply in_map_iff in Hin. destruct Hin as [y [E Hy]]. inversion E; subst. contradiction.
+Qed.
+
+Lemma NoDup_ordered_pairs al : NoDup al -> NoDup (ordered_pairs al).
+Proof.
+  intros Hnd. unfold ordered_pairs.
+  assert (G : forall l, NoDup l -> NoDup (flat_map (fun a => map (fun b => (a, b)) (others al a)) l)).
+  { induction 1 as [|x l Hn Hd IH]; simpl; [constructor|].
+    apply NoDup_app_iff. split; [|split].
+    - apply NoDup_map_pair. apply NoDup_others. exact Hnd.
+    - exact IH.
+    - intros [a b] H1 H2. apply in_map_iff in H1. destruct H1 as [y [E _]]. inversion E; subst.
+      apply in_flat_map in H2. destruct H2 as [z [Hz Hin]]. apply in_map_iff in Hin.
+      destruct Hin as [y' [E' _]]. inversion E'; subst. contradiction. }
+  apply G. exact Hnd.
+Qed.
+
+Theorem pwg_correct i g : wf_inst i -> order_to_pwg i = Ok g ->
+  pwg_lines g = map (fun ab => (pw (mult i) (fst ab) (snd ab), fst ab, snd ab)) (ordered_pairs (alts i))
+  /\ pwg_num_unique g = N.of_nat (length (alts i) * (length (alts i) - 1))
+  /\ pwg_sum g = zsum (fun ab => pw (mult i) (fst ab) (snd ab)) (ordered_pairs (alts i))
+  /\ pwg_num_alternatives g = num_alternatives i
+  /\ pwg_alt_lines g = alts_name i
+  /\ pwg_num_voters g = num_voters i.
+Proof.
+  intros Hwf H. unfold order_to_pwg, pairwise_scores in H.
+  destruct (is_ordinal (data_type i)); simpl in H; [|discriminate].
+  inversion H; subst; clear H. cbn [pwg_lines pwg_num_unique pwg_sum pwg_num_alternatives pwg_alt_lines pwg_num_voters].
+  rewrite (pairwise_table_closed i (wf_alts_nodup i Hwf) (wf_orders_nodup i Hwf)).
+  unfold shape_of. rewrite pwg_entries_rebuild. fold (ordered_pairs (alts i)).
+  repeat split.
+  - rewrite fold_count, map_length, length_ordered_pairs by (apply wf_alts_nodup; exact Hwf). lia.
+  - rewrite fold_sum, zsum_map. simpl. reflexivity.
+Qed.
+
+Theorem pwg_guard i : is_ordinal (data_type i) = false -> order_to_pwg i = Err Incompatible.
+Proof. intros H. unfold order_to_pwg, pairwise_scores. rewrite H. reflexivity. Qed.
+Theorem pwg_defined i : is_ordinal (data_type i) = true -> exists g, order_to_pwg i = Ok g.
+Proof. intros H. unfold order_to_pwg, pairwise_scores. rewrite H. simpl. eauto. Qed.
